@@ -200,3 +200,65 @@ def hostile_spec(rng):
         # delete everything / delete first or last
         spec['passes'][0]['rules'].insert(0, {'pre': 0, 'pat': [-1], 'acts': [[('delete',)]], 'cons': [None if rng.random() < 0.5 else ('lt', ('gattr', 0, 4), ('const', 2))], 'ret': 0})
     return spec
+
+
+def just_spec(rng):
+    """Fonts with justification levels, justification passes and line-end contextuals (no shipped font has any)."""
+    spec = gen_spec(rng, set("assoc,cons,pre,delete,insert,attach,rtl,lookup".split(',')))
+    ncls = len(spec['classes'])
+    nlev = rng.choice([0, 1, 2, 3, 4])
+    spec['nattrs'] = 32
+    # glyph attributes 8.. hold stretch/shrink/step/weight per level
+    spec['jlevels'] = [(8 + 4 * l, 9 + 4 * l, 10 + 4 * l, 11 + 4 * l) for l in range(nlev)]
+    for g in spec['glyphs'][1:]:
+        for l in range(nlev):
+            if rng.random() < 0.7:
+                g['attrs'].update({8 + 4 * l: rng.choice([0, 50, 200, 1000]), 9 + 4 * l: rng.choice([0, 20, 100]), 10 + 4 * l: rng.choice([0, 1, 5]), 11 + 4 * l: rng.choice([0, 1, 2, 5])})
+    line_ends = rng.random() < 0.5
+    spec['flags'] = 1 if line_ends else 0
+    spec['lbgid'] = rng.choice([0, rng.randrange(1, 13)])
+    # space is a real glyph so that the default "stretch the spaces" path has something to stretch
+    spec['cmap'][0x20] = 7
+    if rng.random() < 0.7:
+        rules = []
+        for _ in range(rng.randrange(1, 4)):
+            L = rng.randrange(1, 3)
+            pat = [rng.randrange(ncls) for _ in range(L)]
+            acts = [[] for _ in range(L)]
+            k = rng.randrange(L)
+            acts[k] = [('attr', 'AdvX', ('add', ('sattr', 0, 'AdvX'), ('sattr', 0, 'JWidth')))] if rng.random() < 0.6 else [('attr', 'ShiftX', ('const', rng.randrange(-50, 50)))]
+            if rng.random() < 0.3:
+                acts[k].append(('put_glyph', rng.randrange(ncls)))
+            rules.append({'pat': pat, 'acts': acts, 'cons': [None] * L, 'ret': 0})
+        if line_ends and spec['lbgid'] and rng.random() < 0.7:
+            # a rule that sees the end-of-line glyph
+            spec['classes'].append([spec['lbgid']])
+            if spec.get('nlinear', ncls) == ncls:
+                spec['nlinear'] = ncls + 1
+            else:
+                # keep linear classes first: put the new class at the linear/lookup boundary
+                nl = spec['nlinear']
+                spec['classes'].insert(nl, spec['classes'].pop())
+                spec['nlinear'] = nl + 1
+                def fix(c):
+                    return c + 1 if c >= nl else c
+                for P in spec['passes']:
+                    for r in P['rules']:
+                        r['pat'] = [fix(c) for c in r['pat']]
+                        for acts_ in r['acts']:
+                            for i_, a_ in enumerate(acts_):
+                                if a_[0] == 'put_glyph':
+                                    acts_[i_] = ('put_glyph', fix(a_[1]))
+                                elif a_[0] == 'put_subs':
+                                    acts_[i_] = ('put_subs', a_[1], fix(a_[2]), fix(a_[3]))
+                for r in rules:
+                    r['pat'] = [fix(c) for c in r['pat']]
+                    for acts_ in r['acts']:
+                        for i_, a_ in enumerate(acts_):
+                            if a_[0] == 'put_glyph':
+                                acts_[i_] = ('put_glyph', fix(a_[1]))
+                lbc = nl
+            lbc = spec['classes'].index([spec['lbgid']])
+            rules.append({'pat': [rng.randrange(len(spec['classes'])), lbc], 'acts': [[('attr', 'AdvX', ('const', rng.randrange(0, 900)))], []], 'cons': [None, None], 'ret': 0})
+        spec['passes'].append({'type': 'just', 'pre': 0, 'maxloop': 3, 'rules': rules})
+    return spec
